@@ -80,6 +80,15 @@ CLAIMS = {
   "technique": "layout interpretation: enumeration of the audio trak production for a track-start offset mechanism",
   "text": "Necessary condition only: a track timeline built from stts starts at 0, so preserving an A/V start offset needs an edit list (or a field depending on both first timestamps) in the audio trak. The rule enumerates the audio trak production of every A/V layout; on the pinned tree no mechanism exists: a genuine defect, recorded as a known finding (not small to repair).",
   "note": "Decides that the property cannot hold in general while the mechanism is absent; when one appears, presence and data dependence are checked, not its +-1 tick arithmetic (value-level)."},
+ "C12": {
+  "technique": "whole-library panic/termination obligation inventory on MIR (overflow checks on) discharged by dominating-guard entailment (Fourier-Motzkin over guards, asserts, loop-header invariants, caller-established parameter facts, callee postconditions), finite-domain evaluation of extracted expressions, and named lemmas with machine-checked side conditions",
+  "text": "Every Assert terminator (overflow, bounds, division), every call to a panicking std function and to the crate's always-on assert_invariant!, and every loop reachable from the public surface of api/fragmented/codec/validation is enumerated "
+          "(about 350 obligations, 60 loops) and must be discharged: D1 constant / finite-domain evaluation, D2 entailed by the guards that dominate it (with inferred loop-header bounds, trip-count bounds, postconditions of local callees, field "
+          "intervals of crate-constructed structs and facts every call site of a non-public function establishes), D3 a named lemma whose applicability pattern and numeric side conditions are re-established from the current source on every run "
+          "(L-ITER, L-SCHEDULE, L-ALLOC, L-COUNT, L-WRAP, L-OBUITEM, L-OBUSTEP, L-CURSOR, L-NONEMPTY, L-BOXLEN, L-WIDTH, L-MODSTEP, L-CORRELATED, L-TLS/L-REFCELL/L-SORT). Anything undischarged is a violation unless it is one of the listed known "
+          "findings (each with a concrete panicking input). This is the for-all-inputs statement tests cannot make.",
+  "note": "Assumptions: 64-bit usize; allocation failure/capacity overflow/stack exhaustion excluded; A1 fewer than 2^32-1 samples per track / fragments per muxer; A2 live buffers total < 2^62 bytes. Trusted: the entailment engine (lib/mx/absint.py), "
+          "the classification of panicking std callees, the lemma side-condition checkers. `Promptly`: loops are bounded by buffer lengths or constants; a loop bounded only by an input's magnitude is reported. Panics inside dependencies that are not caused by a violated documented precondition are out of scope."},
  "C11": {
   "technique": "layout interpretation of the media-segment and init-segment builders + MIR slices in flush_segment",
   "text": "trun per-sample fields have the required operator shape (duration = next.dts - this.dts, cts = pts - dts signed, flags constants with the non-sync bit exactly on the non-sync arm, size = len(data)); tfdt/trun are version 1; the base decode time handed to the builder depends on the segment's own samples (defect found and repaired: it was estimated from the previous segment); "
